@@ -128,6 +128,9 @@ def run(pid, tier, ev=None, vd=None, finish=True, want_label=None):
                     others = [b for e2, b in blobs.items() if e2 != s[3]]
                     for b in rng.sample(others, min(3, len(others))):
                         jobs.append((s, blobs[s[3]], kind, b))
+                elif kind == "trailing":
+                    for prm in range(6):
+                        jobs.append((s, blobs[s[3]], kind, prm))
                 elif kind in ("garbage", "wrong_shape"):
                     for prm in (0, 1):
                         jobs.append((s, blobs[s[3]], kind, prm))
